@@ -159,9 +159,26 @@ Definition chk (c : Z * Z * N * list (option N) * on * on * on * on) : bool :=
   for c, lo, no in zip(tcases, lres, nres):
     chk.count({'transform': c}, len(c['levels']) >= 2 or any(l[1] < 0 for l in c['levels']))
     wn, ws = model_levels(c['names'], c['shape'], c['levels'])
-    n_el = 1
-    for s in ws:
-      n_el *= s
+    # what the program computes on raw arrays: leaf(c) = c + sum(ones(shape)); vmap over n copies then .sum(); scan = n-fold iteration
+    leaf_sum = 1
+    for s_ in c['shape']:
+      leaf_sum *= s_
+
+    def mk(levels):
+      if not levels:
+        return lambda cval: cval + leaf_sum
+      kind, _, n, _ = levels[0]
+      inner = mk(levels[1:])
+      if kind == 'vmap':
+        return lambda cval: n * inner(cval)
+      def it(cval):
+        for _ in range(n):
+          cval = inner(cval)
+        return cval
+      return it
+    expect_out = {'linen': mk(c['levels'])(0), 'nnx': leaf_sum}
+    for l_ in c['levels']:
+      expect_out['nnx'] *= l_[2]
     for api, o in (('linen', lo), ('nnx', no)):
       if 'err' in o:
         chk.violation('oracle', '%s: scan/vmap with partition metadata raised %s' % (api, o['err']), {'case': c, 'msg': o.get('msg')})
@@ -170,8 +187,8 @@ Definition chk (c : Z * Z * N * list (option N) * on * on * on * on) : bool :=
       if r['shape'] != ws or r['names'] != wn:
         chk.violation('oracle', '%s: partition names are not aligned with the stacked axes after init' % api,
                       {'case': c, 'observed': {'shape': r['shape'], 'names': r['names']}, 'expected': {'shape': ws, 'names': wn}})
-      if r['out'] != float(n_el):
-        chk.violation('oracle', '%s: the boxed variable does not compute like the raw array under the transforms' % api, {'case': c, 'observed': r['out'], 'expected': n_el})
+      if r['out'] != float(expect_out[api]):
+        chk.violation('oracle', '%s: the boxed variable does not compute like the raw array under the transforms' % api, {'case': c, 'observed': r['out'], 'expected': expect_out[api]})
       if r['spec'] != wn:
         chk.violation('oracle', '%s: get_partition_spec does not return exactly the names' % api, {'case': c, 'observed': r['spec'], 'expected': wn})
       if api == 'linen' and (r['eval_shape_names'] != wn or r['eval_shape_shape'] != ws):
